@@ -31,7 +31,7 @@
 // restarts the worker behind it and confirms the index in a fresh process.
 extern "C" __attribute__( ( used, visibility( "default" ) ) ) const char* __asan_default_options()
 {
-   return "detect_leaks=0:exitcode=77:print_summary=0:detect_stack_use_after_return=0:max_malloc_fill_size=0:abort_on_error=0";
+   return "detect_leaks=0:exitcode=77:print_summary=0:detect_stack_use_after_return=0:max_malloc_fill_size=0:abort_on_error=0:malloc_context_size=2";  // deep allocation stacks of ever new grammars made the stack depot grow without bound
 }
 
 namespace
